@@ -182,6 +182,14 @@ def check_axis_table(ctx):
                 lookvars.add(a.targets[0].id)
             if isinstance(a.value, ast.Call) and isinstance(a.value.func, ast.Attribute) and a.value.func.attr == "get" and norm(a.value.func.value) == memo:
                 lookvars.add("!get:" + a.targets[0].id)
+    # the evaluated size is compared as it is: a lossy numeric conversion in between (int() truncates 2.5 to 2, round, floor ...) makes an
+    # axis "match" an expression whose value it does not equal
+    LOSSY = {"int", "round", "math.floor", "math.ceil", "math.trunc", "floor", "ceil", "trunc", "abs", "operator.index", "bool"}
+    for a in ast.walk(lp):
+        if isinstance(a, ast.Assign) and len(a.targets) == 1 and isinstance(a.targets[0], ast.Name) and a.targets[0].id in evalvars \
+                and isinstance(a.value, ast.Call) and norm(a.value.func) in LOSSY and any(isinstance(x, ast.Name) and x.id in evalvars for x in ast.walk(a.value)):
+            ctx.bad("C01.3", f, a, f"`{short(a, 50)}`: the value of a symbolic axis expression is converted with `{norm(a.value.func)}` before it is compared with the axis size: "
+                    "a fractional value is truncated, so an axis can match an expression it does not equal (`dim/2` with dim=5 matches 2)", construct="symbolic value converted lossily before the comparison")
     # `x = memo.get(key, SENTINEL)` / `(x := memo.get(key, SENTINEL)) is SENTINEL`: absence is told apart from
     # every stored value when the default is a dedicated sentinel compared by identity
     sentinel_gets = {}
